@@ -208,6 +208,16 @@ structure CopyDesc where
   onFail : FailAct
   deriving DecidableEq, Repr
 
+/-- A hook description is well-formed when the hook writes the object header, gives the copy its own buffers,
+re-derives every internal pointer, holds every reference either by a grab or through a deep copy, and — when it
+sizes a fresh buffer by the used part only — belongs to a kind that records that size; its failure path releases
+exactly what it acquired. -/
+def WfDesc (d : CopyDesc) : Prop :=
+  d.header ≠ .zeroed ∧ (∀ a ∈ d.bufs, a ≠ .alias) ∧ (∀ v ∈ d.views, v.1 = .repoint) ∧ (∀ r ∈ d.refs, r ≠ .alias) ∧
+  (.trim ∈ d.bufs → d.capAware = true) ∧ d.onFail = .unwind
+
+instance (d : CopyDesc) : Decidable (WfDesc d) := by unfold WfDesc; infer_instance
+
 /-- The hooks with the repairs of `fixes/C19-*.patch` applied. -/
 def desc : Kind → CopyDesc
   | .gzip | .xz | .lzma | .lz4 | .zstd => ⟨.memcpy, [], [], [], false, true, .unwind⟩
@@ -233,33 +243,29 @@ def descCurrent : Kind → CopyDesc
 
 def listGet {α : Type} (l : List (Option α)) (i : Nat) : Option α := (l[i]?).join
 
-/-- duplicate the buffer slots; result: heap, new slots, `false` if an allocation failed -/
+/-- prepend a finished slot to the result of the remaining slots -/
+def consSlot (s : Option Nat) (r : Heap × List (Option Nat) × Bool) : Heap × List (Option Nat) × Bool :=
+  (r.1, s :: r.2.1, r.2.2)
+
+/-- duplicate the buffer slots; result: heap, new slots, `false` if an allocation failed (then the list is the
+prefix finished so far) -/
 def copyBufs (h : Heap) : List (Option Nat) → List BufAct → Heap × List (Option Nat) × Bool
   | [], _ => (h, [], true)
   | _ :: _, [] => (h, [], true)
-  | none :: bs, _ :: as =>
-    let (h', r, ok) := copyBufs h bs as
-    (h', none :: r, ok)
+  | none :: bs, _ :: as => consSlot none (copyBufs h bs as)
   | some b :: bs, a :: as =>
-    match a with
-    | .alias =>
-      let (h', r, ok) := copyBufs h bs as
-      (h', some b :: r, ok)
-    | act =>
+    if a = .alias then consSlot (some b) (copyBufs h bs as)
+    else
       match h.bufs b with
       | none => (h.fail .useAfterFree, [], false)
       | some bf =>
-        if act = .trim ∧ bf.used = 0 then
+        if a = .trim ∧ bf.used = 0 then
           -- `array_init(dst, size, 0)`: nothing is allocated, the copy's pointer is NULL
-          let (h', r, ok) := copyBufs h bs as
-          (h', none :: r, ok)
+          consSlot none (copyBufs h bs as)
         else
-        let nb : Buf := if act = .trim then ⟨bf.used, bf.used, bf.val⟩ else bf
-        match allocBuf h nb with
-        | (h1, none) => (h1, [], false)
-        | (h1, some id) =>
-          let (h', r, ok) := copyBufs h1 bs as
-          (h', some id :: r, ok)
+          match allocBuf h (if a = .trim then ⟨bf.used, bf.used, bf.val⟩ else bf) with
+          | (h1, none) => (h1, [], false)
+          | (h1, some id) => consSlot (some id) (copyBufs h1 bs as)
 
 def freeSlots (h : Heap) (l : List (Option Nat)) : Heap := l.foldl freeSlot h
 
@@ -268,23 +274,15 @@ On failure the returned list is the prefix acquired so far. -/
 def copyRefs (cp : Heap → Nat → Heap × Option Nat) : Heap → List (Option Nat) → List RefAct → Heap × List (Option Nat) × Bool
   | h, [], _ => (h, [], true)
   | h, _ :: _, [] => (h, [], true)
-  | h, none :: rs, _ :: as =>
-    let (h', r, ok) := copyRefs cp h rs as
-    (h', none :: r, ok)
+  | h, none :: rs, _ :: as => consSlot none (copyRefs cp h rs as)
   | h, some x :: rs, a :: as =>
     match a with
-    | .alias =>
-      let (h', r, ok) := copyRefs cp h rs as
-      (h', some x :: r, ok)
-    | .grab =>
-      let (h', r, ok) := copyRefs cp (grab h x) rs as
-      (h', some x :: r, ok)
+    | .alias => consSlot (some x) (copyRefs cp h rs as)
+    | .grab => consSlot (some x) (copyRefs cp (grab h x) rs as)
     | .deep =>
       match cp h x with
       | (h1, none) => (h1, [], false)
-      | (h1, some y) =>
-        let (h', r, ok) := copyRefs cp h1 rs as
-        (h', some y :: r, ok)
+      | (h1, some y) => consSlot (some y) (copyRefs cp h1 rs as)
 
 /-- the struct is filled in; `sqfs_copy` then sets `refcount = 1` -/
 def finishCopy (d : CopyDesc) (h : Heap) (o : Obj) (nb nr : List (Option Nat)) : Heap × Option Nat :=
